@@ -176,3 +176,25 @@ CHECKS["C07"] = dict(
     assumptions=LOOP_ASSUME,
     deadline=dict(quick=150, thorough=900),
 )
+
+CHECKS["C17"] = dict(
+    quick=[
+        R("h_pump", "mode=rw bound=6"),
+        R("h_pump", "mode=splice bound=2"),
+    ],
+    thorough=[
+        R("h_pump", "mode=rw bound=9", share=0.5),
+        R("h_pump", "mode=splice bound=3"),
+    ],
+    rule="rw mode: input length in {0,1,4095,4096,4097,5000,8193} x RELAY_EOF on/off; every read()/write() result of the pump is a "
+         "choice among {everything, 1 byte, half, EAGAIN, EINTR, I/O error, EOF}; iv_fd_pump_destroy at any step; a second pump in the "
+         "same thread afterwards; quiescent states (source offset, sink offset, pump fields) are expanded once per remaining budget. "
+         "splice mode: real pipes (4096 B) / stream socket pairs as input and output (4 combinations), first feed 1/4096/70000 bytes, "
+         "programs of feed/drain/close/pump/destroy steps. Non-trivial: at least one pump call and one non-default choice; distinct by "
+         "observation trace.",
+    explanation="byte-stream reference model (byte i = i mod 251): the sink must see exactly the source bytes in order; shutdown only with "
+                "RELAY_EOF after the last byte; return value 0/1/-1 and requested bands are compared with the reference after every call",
+    assumptions=["rw mode replaces only the pump's two descriptors by a simulated source and sink; splice mode uses the host kernel's "
+                 "splice/pipe/socket semantics", "read-write buffer size 4096 as in the source"],
+    deadline=dict(quick=150, thorough=900),
+)
